@@ -95,11 +95,18 @@ impl StepOracle for C05Oracle {
             if n(m).mul(&n(m)) > prod || m1.mul(&m1) <= prod {
                 return Verdict::Fail(format!("step {}: first provision of ({}, {}) made the supply {} != floor(sqrt(d0*d1))", cx.index, d0, d1, m));
             }
-            add_delta(&mut expected, pr.lp.as_str(), &lp, 1);
-            add_delta(&mut expected, receiver, &lp, m as i128 - 1);
-            if snap_cw20(&cx.rec.after, pr.lp.as_str(), pr.lp.as_str()) != 1 {
-                return Verdict::Fail(format!("step {}: after the first provision the LP token's own address does not hold exactly 1 unit", cx.index));
+            // exactly one unit goes to an address that can never spend it: the statement does not say
+            // which; accept any single address that is not a user account (actors, bystanders, fresh
+            // addresses, owner), i.e. a contract of the system none of whose entry points transfers LP
+            let users: Vec<String> = w.holders().iter().map(|h| h.to_string()).chain((0..3).map(|i| fresh_addr(i).to_string())).chain(std::iter::once(w.owner.to_string())).collect();
+            let lp_key = asset_key(&lp);
+            let sinks: Vec<(String, i128)> = actual_deltas(cx.rec).into_iter().filter(|((acc, a), _)| *a == lp_key && acc != receiver && *acc != caller).map(|((acc, _), d)| (acc, d)).collect();
+            if sinks.len() != 1 || sinks[0].1 != 1 || users.contains(&sinks[0].0) {
+                return Verdict::Fail(format!(
+                    "step {}: first provision: besides the receiver, LP balances changed as {:?}; exactly one unit must go to one address that can never spend it", cx.index, sinks));
             }
+            add_delta(&mut expected, &sinks[0].0, &lp, 1);
+            add_delta(&mut expected, receiver, &lp, m as i128 - 1);
             self.nontrivial += 1;
         }
         let actual = actual_deltas(cx.rec);
@@ -136,7 +143,7 @@ pub fn suites() -> Vec<Suite> {
             head_len: HEAD_LEN,
             op_len: OP_LEN,
             max_ops: 30,
-            quick_cases: 5_000,
+            quick_cases: 20_000,
             thorough_cases: 400_000,
             run,
             direct: Some(direct_with::<C05Oracle>),
@@ -149,7 +156,7 @@ pub fn suites() -> Vec<Suite> {
             head_len: HEAD_LEN,
             op_len: OP_LEN,
             max_ops: 30,
-            quick_cases: 3_000,
+            quick_cases: 10_000,
             thorough_cases: 200_000,
             run: run_mixed,
             direct: Some(direct_with::<C05Oracle>),
